@@ -162,4 +162,40 @@ Definition g_defun (st : state) (name : string) (ps : list string) (body : list 
       (match slookup name (lambdas st) with Some c => Nat.eqb a c | None => false end)
       || (match nth_error (heap st) a with Some l => lam_eqb_def l name ps body | None => false end)
   end.
-Definition comparable (r : res) : bool := match r with Err EUndefined => false | _ => true end.
+(* S's verdict is binding when it is a value or a condition other than undefined-function; when S runs out
+   of fuel it says nothing *)
+Definition comparable (r : res) : bool := match r with Err EUndefined => false | OutOfFuel => false | _ => true end.
+Definition is_val (r : res) : bool := match r with Val _ => true | _ => false end.
+
+(* (G1) followed along the model run *)
+Fixpoint guard_forms (n : nat) (st : state) (fs : list tform) : bool :=
+  match fs with
+  | [] => true
+  | TQuote _ :: r => guard_forms n st r
+  | TForm e :: r =>
+      match parse_defun e with
+      | Some (nm, ps, body) => g_defun st nm ps body && guard_forms n (defunM st nm ps body) r
+      | None => match evalM n st [] e with (Val _, st1) => guard_forms n st1 r | _ => true end
+      end
+  end.
+Fixpoint guard_defs (st : state) (fs : list tform) : bool :=
+  match fs with
+  | [] => true
+  | TForm e :: r =>
+      match parse_defun e with
+      | Some (nm, ps, body) => g_defun st nm ps body && guard_defs (defunM st nm ps body) r
+      | None => guard_defs st r
+      end
+  | _ :: r => guard_defs st r
+  end.
+Definition guard_op (n : nat) (m : mstate) (o : op) : bool :=
+  match o with
+  | OLoad _ _ => true
+  | OCompile cid => match nlookup cid (codes m) with Some fs => guard_defs (ms m) fs | None => true end
+  | ORun cid => match nlookup cid (codes m) with Some fs => guard_forms n (set_out (ms m) []) fs | None => true end
+  end.
+Fixpoint guard_ops (n : nat) (m : mstate) (ops : list op) : bool :=
+  match ops with
+  | [] => true
+  | o :: r => guard_op n m o && guard_ops n (fst (stepM n m o)) r
+  end.
